@@ -192,6 +192,7 @@ type c2_in = {
   c_inst : z list; c_regions : ((z * z) * z) list list; c_ivds : z list list; c_vsdef : z list;
   c_gsubrs : z list list; c_fds : z list list option list; c_fdsel : z list; c_glyphs : z list list;
   c_hmtx : (int * int) list; c_hv : hvar option;
+  c_mv : (ivstore * ((z * z) * z) list) option; c_vals : z list;
 }
 
 let parse_blist (s : string) : z list list =
@@ -215,7 +216,14 @@ let parse_c2 (p : string array) (base : int) (inst : z list) : c2_in =
     c_glyphs = parse_blist p.(base + 6);
     c_hmtx = List.map (fun m -> match split_on ':' m with [a; l] -> (int_of_string a, int_of_string l) | _ -> failwith "hmtx")
         (fields ',' p.(base + 7));
-    c_hv = hv }
+    c_hv = hv;
+    c_mv = (if Array.length p <= base + 9 || p.(base + 9) = "-" then None else
+              match split_on '#' p.(base + 9) with
+              | rs :: ds :: recs :: _ ->
+                Some (parse_store rs ds, List.map (fun r -> match split_on ',' r with
+                    | [t; o; i] -> ((zs t, zs o), zs i) | _ -> failwith "rec") (fields ';' recs))
+              | _ -> failwith "mvar");
+    c_vals = (if Array.length p <= base + 10 then [] else zints p.(base + 10)) }
 
 let c2_of_input (p : string array) : c2_in =
   if p.(0) = "c2" then parse_c2 p 2 (List.map (fun k -> zi (clamp14 k)) (ints p.(1)))
@@ -424,6 +432,34 @@ let judge_glyph (g : gspec) (ds : (float * float) list option) (impl : string) :
            (List.combine cs ip)), None)
   | _, _ -> ([Violation ("outline", "glyph kind changed")], None)
 
+
+(* the MVAR-controlled values `iv` of an instance against source value + exact delta *)
+let judge_mvar (mv : (ivstore * ((z * z) * z) list) option) (vals : z list) (inst : z list) (iv : string list)
+    (add : verdict -> unit) : unit =
+  let exact = Array.make 28 0.0 in
+  List.iteri (fun k v -> if k < 28 then exact.(k) <- z_to_float v) vals;
+  (match mv with
+   | None -> ()
+   | Some (st, recs) ->
+     List.iter (fun ((tg, o), i) ->
+         match adjustment st o i inst, mvar_target tg with
+         | Ok dq, Some ((tgt, _), _) ->
+           let k = (let rec idx l n = match l with [] -> -1 | (_, ((t2, _), _)) :: r -> if t2 = tgt then n else idx r (n + 1) in idx mVAR_TABLE 0) in
+           if k >= 0 then exact.(k) <- exact.(k) +. q_to_float dq
+         | _ -> ()) recs);
+  List.iteri (fun k s ->
+      if k < 28 && s <> "x" then begin
+        let (lo, hi) = if k = 3 || k = 4 then (0, 65535) else (-32768, 32767) in
+        let vhea_field = (k >= 5 && k <= 7) || (k >= 11 && k <= 13) in
+        if vhea_field then begin
+          (* a vhea value either is the nearest integer of the exact value or the property fails *)
+          match cmp_round "mvar-vhea" (Printf.sprintf "MVAR-controlled vhea value %d" k) (int_of_string s) exact.(k) lo hi with
+          | Agree -> ()
+          | _ -> add (Violation ("mvar-vhea", Printf.sprintf "MVAR-controlled vhea value %d: implementation %s, exact value %.6f" k s exact.(k)))
+        end else
+          add (cmp_round "mvar" (Printf.sprintf "MVAR-controlled value %d" k) (int_of_string s) exact.(k) lo hi)
+      end) iv
+
 let judge_e2e (input : string) (impl : string) (model : string) : verdict =
   let p = Array.of_list (split_on '|' input) in
   let e = parse_e2e p in
@@ -491,31 +527,7 @@ let judge_e2e (input : string) (impl : string) (model : string) : verdict =
           (List.combine (List.combine e.glyphs dss) ih)
     end;
     (* MVAR-controlled values *)
-    let iv = split_on ',' (get "M") in
-    let exact = Array.of_list (List.map z_to_float e.vals) in
-    let touched = Array.make 28 false in
-    (match e.mv with
-     | None -> ()
-     | Some (st, recs, _) ->
-       List.iter (fun ((tg, o), i) ->
-           match adjustment st o i e.inst, mvar_target tg with
-           | Ok dq, Some ((tgt, _), _) ->
-             let k = (let rec idx l n = match l with [] -> -1 | (_, ((t2, _), _)) :: r -> if t2 = tgt then n else idx r (n + 1) in idx mVAR_TABLE 0) in
-             if k >= 0 then begin exact.(k) <- exact.(k) +. q_to_float dq; touched.(k) <- true end
-           | _ -> ()) recs);
-    List.iteri (fun k s ->
-        if k < 28 && s <> "x" then begin
-          let (lo, hi) = if k = 3 || k = 4 then (0, 65535) else (-32768, 32767) in
-          let vhea_field = (k >= 5 && k <= 7) || (k >= 11 && k <= 13) in
-          if vhea_field then begin
-            (* a vhea value either is the nearest integer of the exact value or the property fails *)
-            match cmp_round "mvar-vhea" (Printf.sprintf "MVAR-controlled vhea value %d" k) (int_of_string s) exact.(k) lo hi with
-            | Agree -> ()
-            | _ -> add (Violation ("mvar-vhea", Printf.sprintf "MVAR-controlled vhea value %d: implementation %s, exact value %.6f" k s exact.(k)))
-          end else
-            add (cmp_round "mvar" (Printf.sprintf "MVAR-controlled value %d" k) (int_of_string s) exact.(k) lo hi)
-        end) iv;
-    ignore touched;
+    judge_mvar (match e.mv with Some (st, recs, _) -> Some (st, recs) | None -> None) e.vals e.inst (split_on ',' (get "M")) add;
     first_bad (List.rev !vs)
   end
 
@@ -592,7 +604,7 @@ let judge_c2 (input : string) (impl : string) (_model : string) : verdict =
     List.iter (fun t -> if ends_in_var t then add (Violation ("var-table-kept", Printf.sprintf "table %08x in the instance" t))) tags;
     if p.(0) = "c2" then begin
       let src = [0x43464632; 0x4F532F32; 0x636D6170; 0x68656164; 0x68686561; 0x686D7478; 0x6D617870; 0x6E616D65; 0x706F7374] in
-      if List.sort compare tags <> List.sort compare src then add (Mismatch "the set of tables of the instance differs from the source's static tables")
+      if List.sort compare tags <> src then add (Mismatch "the set of tables of the instance differs from the source's static tables")
     end;
     if get "VS" <> "0" then add (Mismatch "the CFF2 table of the instance still has a VariationStore");
     let cs = parse_blist (get "CS") in
@@ -618,6 +630,22 @@ let judge_c2 (input : string) (impl : string) (_model : string) : verdict =
              else begin
                let maxabs = List.fold_left (fun a (_, l) -> List.fold_left (fun a v -> Float.max a (Float.abs (coord_to_float v))) a l) 512.0 ec in
                let per = Float.ldexp 1.0 (-15) +. Float.ldexp maxabs (-19) in
+               (* KNOWN FINDING cff2-operand-range: a charstring operand is an i16 or a 16.16 number.
+                  When default + sum(scalar * delta) leaves that range the instance cannot hold it:
+                  From<f32> for StackValue saturates whole numbers (`as i16`) and wraps fractional
+                  ones (Fixed::from), silently.  Operands are the steps between consecutive points:
+                  a step of 32767 or more on an axis marks the glyph as outside the domain. *)
+               let out_of_range =
+                 let px = ref 0.0 and py = ref 0.0 and bad = ref false in
+                 List.iter (fun (_, l) ->
+                     let rec go = function
+                       | x :: y :: r ->
+                         let fx = coord_to_float x and fy = coord_to_float y in
+                         if Float.abs (fx -. !px) >= 32767.0 || Float.abs (fy -. !py) >= 32767.0 then bad := true;
+                         px := fx; py := fy; go r
+                       | _ -> () in go l) ec;
+                 !bad in
+               let cls2 = if out_of_range then "cff2-operand-range" else "cff2-outline" in
                let k = ref 0 and pt = ref 0 in
                let worst = ref None in
                List.iter2 (fun (_, el) (_, gl) ->
@@ -641,8 +669,9 @@ let judge_c2 (input : string) (impl : string) (_model : string) : verdict =
                   add (Violation ("default-instance", Printf.sprintf "glyph %d point %d %s: no region applies at these coordinates, yet the instance has %.6f where the source's default master has %.6f (off by %.6f)"
                                     gid ptn ax (coord_to_float g) (coord_to_float e) d))
                 | Some (2, d, ptn, ax, e, g) ->
-                  add (Violation ("cff2-outline", Printf.sprintf "glyph %d point %d %s: instance %.6f, default + sum(scalar * delta) = %.6f: %.3f units apart (more than one unit)"
+                  add (Violation (cls2, Printf.sprintf "glyph %d point %d %s: instance %.6f, default + sum(scalar * delta) = %.6f: %.3f units apart (more than one unit)"
                                     gid ptn ax (coord_to_float g) (coord_to_float e) d))
+                | Some (_, _, _, _, _, _) when out_of_range -> ()
                 | Some (_, d, ptn, ax, e, g) ->
                   add (Mismatch (Printf.sprintf "glyph %d point %d %s: instance %.6f, exact %.6f: %.4f apart (outside the rounding the model allows for)"
                                    gid ptn ax (coord_to_float g) (coord_to_float e) d)))
@@ -680,6 +709,8 @@ let judge_c2 (input : string) (impl : string) (_model : string) : verdict =
            | Ok None -> if ilsb <> lsb then add (Mismatch (Printf.sprintf "glyph %d: lsb changed without an HVAR lsb mapping" gid))
            | _ -> add (Mismatch "HVAR lsb delta fails in the model")))
         (List.combine c.c_hmtx ih);
+    (* MVAR-controlled values (the source values are part of the input; older lines have none) *)
+    if c.c_vals <> [] then judge_mvar c.c_mv c.c_vals c.c_inst (split_on ',' (get "M")) add;
     first_bad (List.rev !vs)
   end
 
@@ -760,4 +791,16 @@ let judge (input : string) (impl : string) (model : string) : verdict =
 
 let tag (input : string) (out : string) : string =
   let mode = match String.index_opt input '|' with Some i -> String.sub input 0 i | None -> input in
+  if mode = "c2" || mode = "c2f" then begin
+    (* where the coordinates lie, whether any region applies, which metrics tables the font has *)
+    let p = Array.of_list (split_on '|' input) in
+    let c = c2_of_input p in
+    let frac = List.exists (function
+        | Some l -> List.exists (function Some s -> s <> Z0 && s <> z_of_string "4294967296" | None -> false) l
+        | None -> false) (c2_scalars c) in
+    mode ^ "-" ^ (if List.for_all (fun v -> v = Z0) c.c_inst then "default"
+                  else if c2_no_region_applies c then "noregion"
+                  else if frac then "between" else "atpeak")
+    ^ (if c.c_hv <> None then "+hvar" else "") ^ (if c.c_mv <> None then "+mvar" else "")
+  end else
   mode ^ "-" ^ (if starts_with "err" out then "err" else if starts_with "panic" out then "panic" else "ok")
